@@ -17,7 +17,8 @@ import re
 
 import vlex
 
-_FROZEN = re.compile(r"(translate|synthesis|vhdl_comp|pragma|rtl_synthesis|synopsys|coverage)", re.I)
+# the comment forms VSG treats as pragmas by default (vsg/config.py dPragmas): a file that contains one is left alone
+_FROZEN = re.compile(r"^--\s+(synthesis|pragma|altera|synopsys|xilinx)\s+\w+(\s+\w+)?\s*$|^--vhdl_comp_(off|on)\s*$|^--\s+RTL_SYNTHESIS\s+(OFF|ON)\s*$")
 _TAG = re.compile(r"--\s*vsg_")
 
 
@@ -123,6 +124,30 @@ def widen(text, g=1, p=0, narrow=False):
     return _emit(out, trailing) if n else None
 
 
+def tight(text, g=1, p=0):
+    """remove every g-th interior blank run that separates a word / literal from a symbol (lbl : a <= b  ->  lbl:a<=b);
+    blanks between two words are needed, blanks between two symbols could fuse them - both are left alone"""
+    toks = vlex.lex(text)
+    if _frozen_file(toks):
+        return None
+    lines, trailing = _lines(toks)
+    n = 0
+    out = []
+    for ln in lines:
+        if any(k == "cmt" and _TAG.search(t) for k, t in ln):
+            out.append(ln)
+            continue
+        drop = set()
+        for i in _interior_ws_positions(ln):
+            a, b = ln[i - 1][0], ln[i + 1][0]
+            if (a == "sym") != (b == "sym"):
+                if n % g == p:
+                    drop.add(i)
+                n += 1
+        out.append([t for i, t in enumerate(ln) if i not in drop])
+    return _emit(out, trailing) if n else None
+
+
 def break_at(text, g=3, p=0):
     toks = vlex.lex(text)
     if _frozen_file(toks):
@@ -211,6 +236,9 @@ def break_comment(text, g=3, p=0):
 
 
 RECIPES = {
+    "tight": lambda s: tight(s, 1, 0),
+    "tight2a": lambda s: tight(s, 2, 0),
+    "tight2b": lambda s: tight(s, 2, 1),
     "eolt1": lambda s: eol_comment(s, 1, 0, tight=True),      # the comment directly abuts the code:  std_logic);--c
     "breakcmt3a": lambda s: break_comment(s, 3, 0),
     "breakcmt3b": lambda s: break_comment(s, 3, 1),
